@@ -253,8 +253,10 @@ class Run:
             "wall_s": round(time.time() - self.t0, 2),
             "violations": len(self.violations),
         }
-        os.makedirs(os.path.join(VERIF, "evidence"), exist_ok=True)
-        with open(os.path.join(VERIF, "evidence", f"{self.pid}.json"), "w") as f:
+        # runs against a scratch copy (UFL_REPO set: mutation self-tests) must not overwrite the evidence
+        evdir = "evidence" if os.path.realpath(REPO) == "/repo" else "evidence-scratch"
+        os.makedirs(os.path.join(VERIF, evdir), exist_ok=True)
+        with open(os.path.join(VERIF, evdir, f"{self.pid}.json"), "w") as f:
             json.dump(ev, f, indent=1, default=str)
         print(f"[{self.pid}] tier={self.tier} obligations={len(self.obligations)} "
               f"discharged={len(self.discharged)} cases={self.evaluations} "
